@@ -1,9 +1,9 @@
 #!/bin/bash
-# seedconfirm.sh <ID> : independently confirms a seeded change produced under /tmp/seed/out/<ID>
+# seedconfirm.sh <ID> [base=/tmp/seed] [suffix=] : independently confirms a seeded change produced under /tmp/seed/out/<ID>
 # (demo fails with the patch, passes without; touched packages' existing tests pass with the patch)
 # in the scratch worktree /tmp/seed/<ID>, then stores it under /verif/seeded/<ID>/.
 export GOFLAGS=-mod=mod GOPROXY=off GOSUMDB=off GOTOOLCHAIN=local
-ID=$1; T=/tmp/seed/$ID; O=/tmp/seed/out/$ID; L=/tmp/seed/out/$ID/confirm.log
+ID=$1; B=${2:-/tmp/seed}; SUF=$3; T=$B/$ID; O=$B/out/$ID; L=$B/out/$ID/confirm.log
 cd $T || exit 2
 git checkout -q -- . ; git clean -fdq
 DEMO=$(python3 -c "
@@ -34,12 +34,12 @@ echo "== demo without patch (must pass)" >> $L; (eval "$DEMO") >> $L 2>&1; R3=$?
 git clean -fdq; git checkout -q -- .
 echo "$ID demo_with_patch_exit=$R1 existing_with_patch_exit=$R2 demo_without_patch_exit=$R3 build=$R4" | tee -a $L
 if [ $R1 -ne 0 ] && [ $R2 -eq 0 ] && [ $R3 -eq 0 ] && [ $R4 -eq 0 ]; then
-  mkdir -p /verif/seeded/$ID; cp $O/patch.diff /verif/seeded/$ID/; rm -rf /verif/seeded/$ID/demo; cp -r $O/demo /verif/seeded/$ID/demo
+  mkdir -p /verif/seeded/$ID$SUF; cp $O/patch.diff /verif/seeded/$ID$SUF/; rm -rf /verif/seeded/$ID$SUF/demo; cp -r $O/demo /verif/seeded/$ID$SUF/demo
   python3 - <<P
 import json
 m=json.load(open('$O/meta.json'))
 m['confirmed_by_main_session']={'ran':'/verif/seedconfirm.sh $ID','demo_with_patch_exit':$R1,'existing_tests_with_patch_exit':$R2,'demo_without_patch_exit':$R3,'packages_tested':'''$PKGS'''.split()}
-json.dump(m,open('/verif/seeded/$ID/meta.json','w'),indent=1)
+json.dump(m,open('/verif/seeded/$ID$SUF/meta.json','w'),indent=1)
 P
   echo "$ID CONFIRMED"
 else
